@@ -324,6 +324,7 @@ func (t c13cliTS) ReadInto(ctx context.Context, addr string, id core.TractID, ve
 	}
 	got, err := s.Read(ctx, id, version, len(b), off)
 	if err != core.NoError && err != core.ErrEOF {
+		c13lastErr2 = fmt.Sprintf("ReadInto %s %v len=%d off=%d: %s", addr, id, len(b), off, err)
 		return 0, err
 	}
 	if len(got) > len(b) {
@@ -347,10 +348,42 @@ func (t c13cliTS) SetControlFlags(ctx context.Context, addr string, root string,
 	return core.NoError
 }
 
-// c13disk is tractserver.MemDisk (the package's own in-memory test double) except that a read starting
-// beyond the end of the file returns 0 bytes, as the production disk (checksum file) does; MemDisk itself
-// panics there (slice bounds), which is a limitation of the double, not of the code under test.
-type c13disk struct{ *tractserver.MemDisk }
+// c13disk is tractserver.MemDisk (the package's own in-memory test double) with two limitations of the double
+// removed, neither of which exists in the production disk (Manager + checksum files):
+//  - a read starting beyond the end of the file returns 0 bytes (MemDisk panics there: slice bounds);
+//  - handles are reference counted: MemDisk keeps ONE "open" flag per file, so the first Close of two concurrent
+//    readers of the same piece (the client reads two tracts packed into one piece in parallel) invalidates the
+//    other reader's handle (ErrInvalidArgument).
+type c13disk struct {
+	*tractserver.MemDisk
+	mu   *sync.Mutex
+	refs map[interface{}]int
+}
+
+func c13newDisk() c13disk {
+	return c13disk{MemDisk: tractserver.NewMemDisk(), mu: &sync.Mutex{}, refs: map[interface{}]int{}}
+}
+
+func (d c13disk) Open(ctx context.Context, id core.TractID, flags int) (interface{}, core.Error) {
+	d.mu.Lock()
+	defer d.mu.Unlock()
+	f, err := d.MemDisk.Open(ctx, id, flags)
+	if err == core.NoError {
+		d.refs[f]++
+	}
+	return f, err
+}
+
+func (d c13disk) Close(f interface{}) core.Error {
+	d.mu.Lock()
+	defer d.mu.Unlock()
+	if d.refs[f] > 1 {
+		d.refs[f]--
+		return core.NoError
+	}
+	delete(d.refs, f)
+	return d.MemDisk.Close(f)
+}
 
 func (d c13disk) Read(ctx context.Context, f interface{}, b []byte, off int64) (int, core.Error) {
 	size, err := d.MemDisk.Size(f)
@@ -379,7 +412,7 @@ func c13newEnv() *c13env {
 	for i := 1; i <= c13numTS; i++ {
 		cfg := tractserver.DefaultTestConfig
 		s := tractserver.NewStore(c13tsTT{e}, tractserver.NewMetadataStore(), &cfg)
-		s.AddDisk(c13disk{tractserver.NewMemDisk()})
+		s.AddDisk(c13newDisk())
 		a := c13addr(i)
 		e.stores[a] = s
 		e.ids[a] = core.TractserverID(i)
@@ -748,6 +781,7 @@ func c13errClass(err error) int64 {
 }
 
 var c13lastErr string
+var c13lastErr2 string
 
 func (e *c13env) read(b core.BlobID, off int64, length int) (int, int64, []byte) {
 	buf := make([]byte, length)
@@ -822,7 +856,7 @@ func c13stripe(tr *vw.Trace, e *c13env, r *vw.Rng, id string, big bool) {
 	}
 	extra := r.PickInt(0, 0, 0, 1, 100, 4000)
 	target := k*P + extra
-	inc := r.PickInt(target, target+1, P, 100000, 30011, 4<<20)
+	inc := r.PickInt(target, target+1, target-1, (target+1)/2, P, 100000, 30011, 4<<20)
 	e.setIncrement(inc)
 	e.mu.Lock()
 	e.target = target
@@ -1248,7 +1282,7 @@ func c13stripe(tr *vw.Trace, e *c13env, r *vw.Rng, id string, big bool) {
 			vw.Report(vw.Violation{Property: c13prop, Signature: fmt.Sprintf("rs-read/%s/%s/%s", tag, kind, where),
 				What: "a read through the erasure-coded location returns a different count / end-of-file than the replicated read", Case: id,
 				Detail: map[string]interface{}{"blob_off": p.off, "len": p.length, "tract_len": t.length, "in_tract_off": p.inoff,
-					"replicated": []int64{int64(p.n), p.cls}, "rs": []int64{int64(n2), cls2}, "class": p.classTag, "err": c13lastErr}})
+					"replicated": []int64{int64(p.n), p.cls}, "rs": []int64{int64(n2), cls2}, "class": p.classTag, "err": c13lastErr, "err2": c13lastErr2}})
 		} else if !bytes.Equal(data2, p.data) {
 			vw.Report(vw.Violation{Property: c13prop, Signature: fmt.Sprintf("rs-read/%s/bytes/%s", tag, where),
 				What: "a read through the erasure-coded location returns different bytes than the replicated read", Case: id,
